@@ -123,6 +123,7 @@ def generate(repo, outdir):
         hs.append('\n#[kani::proof]\n#[kani::unwind(14)]\nfn clif_%s() { run_clif(%#04x); } // ebpf::%s\n' % (name.lower(), val, name))
         harnesses.append(dict(name='clif_' + name.lower(), kind='contract', opcode=name))
     harnesses.append(dict(name='clif_env_precondition_satisfiable', kind='cover'))
+    harnesses.append(dict(name='clif_prelude', kind='contract'))
     hs.append(BOUNDED_CFG)
     shapes = {'mov': 0xbf, 'ja': 0x05, 'jeq': 0x1d, 'exit': 0x95}
     quick_shapes = {('mov', 'jeq', 'exit'), ('ja', 'mov', 'exit'), ('jeq', 'mov', 'ja')}
@@ -152,6 +153,52 @@ def generate(repo, outdir):
                 assumptions=['the stub cranelift_* crates (/verif/stubs) ARE the assumed contract of Cranelift 0.127: IR instruction semantics, builder / module API, block discipline; Cranelift\'s own code generation and ABI lowering are trusted',
                              'the instruction under test sits at pc 0 of a 4-slot program (X ; filler|second half ; filler ; exit): translate_program has no position-dependent code except the block-table keys; CFG shapes beyond this program are NOT explored (bounded, labelled)',
                              'hashbrown / BTreeMap replaced by fixed-capacity containers with the same semantics up to 6 entries'])
+
+
+def decode_witness(vals, opc):
+    """Concrete-playback byte vectors in the order of the kani::any() calls of run_clif."""
+    it = iter(vals)
+
+    def u(nbytes, signed=False):
+        b = next(it)
+        if len(b) != nbytes:
+            raise ValueError('witness layout mismatch: expected %d bytes, got %d' % (nbytes, len(b)))
+        return int.from_bytes(bytes(b), 'little', signed=signed)
+    w = dict(engine='cranelift', depth='0', pc='0', n='4')
+    w['insn'] = dict(opc=opc, dst=u(1), src=u(1), off=u(2, True), imm=u(4, True))
+    w['next_imm'] = u(4, True)
+    regs = [u(8) for _ in range(11)]
+    w['reg'] = [str(x) for x in regs]
+    w['mem'] = [str(u(8)), str(u(8))]
+    w['mbuff'] = [str(u(8)), str(u(8))]
+    w['stack'] = [str(u(8)), '512']
+    w['load_data'] = str(u(8))
+    return w
+
+
+def witness(crate, harness, opcodes, replay_exe, want=None):
+    """Concrete playback of a failing per-opcode harness -> witness -> the REAL Cranelift back end."""
+    import json
+    import subprocess
+    import kani
+    m = re.match(r'clif_(\w+)$', harness)
+    opc = dict((k.lower(), v) for k, v in opcodes).get(m.group(1)) if m else None
+    if opc is None:
+        return dict(witness=None, replay_transcript='harness %s is not a per-opcode harness: no input to replay' % harness)
+    vals, raw = kani.playback(crate, harness, prefix='cranelift::harnesses::', want=want, extra=['--solver', 'kissat', '--no-memory-safety-checks'])
+    if not vals:
+        return dict(witness=None, replay_transcript='Kani produced no concrete values:\n' + (raw or '')[-1500:])
+    try:
+        w = decode_witness(vals, opc)
+    except (ValueError, StopIteration) as e:
+        return dict(witness=None, replay_transcript='could not decode the counterexample: %r' % (e,))
+    wp = os.path.join(crate, 'witness_%s.json' % harness)
+    with open(wp, 'w') as f:
+        json.dump(w, f)
+    p = subprocess.run([replay_exe, 'step', wp], capture_output=True, text=True, timeout=600)
+    out = (p.stdout + p.stderr).strip()
+    return dict(witness=w, reproduced_on_real_code=out.startswith('REPRODUCED'), replay_transcript=out,
+                replay_cmd='%s step <file holding the `witness` object>' % replay_exe)
 
 
 if __name__ == '__main__':
